@@ -523,3 +523,65 @@ package secp256k1
 //@   derives oncurve [C11,C08]: imp(onE3(old(fv(e.x)), old(fv(e.y))), inv(e)) by iso_valid(old(fv(e.x)), old(fv(e.y)))
 //@   modifies *e
 //@   returns e
+
+// ---- expand_message_xmd (RFC 9380 5.3.1) with H = SHA-256 (uninterpreted), b_in_bytes = 32, s_in_bytes = 64 ----
+//@ define dstp(d) = ite(255 < slen(d), cat(H(cat(lit("H2C-OVERSIZE-DST-"), d)), byte(32)), cat(d, byte(slen(d) % 256)))
+//@ define xmd_b0(m, d, n) = H(cat(zeros(64), m, i2osp2(n), byte(0), dstp(d)))
+//@ define xmd_b1(m, d, n) = H(cat(xmd_b0(m, d, n), byte(1), dstp(d)))
+//@ define xmd_b2(m, d, n) = H(cat(strxor(xmd_b0(m, d, n), xmd_b1(m, d, n)), byte(2), dstp(d)))
+//@ define xmd_b3(m, d, n) = H(cat(strxor(xmd_b0(m, d, n), xmd_b2(m, d, n)), byte(3), dstp(d)))
+//@ define xmd(m, d, n) = ite(n == 48, cat(xmd_b1(m, d, n), sub(xmd_b2(m, d, n), 0, 16)), cat(xmd_b1(m, d, n), xmd_b2(m, d, n), xmd_b3(m, d, n)))
+
+//@ func expandXMD
+//@   mode int
+//@   props C08, C09, C15, C16, C17
+//@   vals length 48,96
+//@   requires length == 48 || length == 96
+//@   ensures_panics empty [C08,C09]: slen(str(dst)) == 0
+//@   ensures out [C08,C09]: bytes_eq(result, strcells(xmd(str(input), str(dst), length), length))
+//@   returns fresh:$length
+
+// ---- hash_to_field / hash_to_curve / encode_to_curve (RFC 9380 section 3, 5.2, 6.6.2, 6.6.3) ----
+//@ define chord_l(x2, y2, x1, y1) = (y2 - y1) * finv(x2 - x1)
+//@ define chord_x(x2, y2, x1, y1) = chord_l(x2, y2, x1, y1)*chord_l(x2, y2, x1, y1) - x1 - x2
+//@ define chord_y(x2, y2, x1, y1) = chord_l(x2, y2, x1, y1) * (x1 - chord_x(x2, y2, x1, y1)) - y1
+//@ define mapc(u) = ptf(iso_x(sswu_x(u)), iso_y(sswu_x(u), sswu_y(u)), iso_z(sswu_x(u)))
+//@ define h2f(m, d, n, k) = fofint(os2ip(strcells(xmd(m, d, n), 48*k, 48)))
+//@ lemma chord_on_curve(x2, y2, x1, y1) {lean: Secp.chord_on_curve}: imp(onE3(x2, y2) && onE3(x1, y1) && x1 != x2, onE3(chord_x(x2, y2, x1, y1), chord_y(x2, y2, x1, y1)))
+//@ lemma iso_hom_chord(x2, y2, x1, y1) {lean: ASSUMED (RFC 9380 6.6.3: iso_map is a group homomorphism)}: imp(onE3(x2, y2) && onE3(x1, y1) && x1 != x2, ptf(iso_x(chord_x(x2, y2, x1, y1)), iso_y(chord_x(x2, y2, x1, y1), chord_y(x2, y2, x1, y1)), iso_z(chord_x(x2, y2, x1, y1))) == gadd(ptf(iso_x(x2), iso_y(x2, y2), iso_z(x2)), ptf(iso_x(x1), iso_y(x1, y1), iso_z(x1))))
+//@ assume hash_no_x_collision: HashToGroup's affine addition on E' is not complete; the two SSWU outputs are assumed to have different x (probability about 2^-255 per call; no (msg, DST) reaching it can be exhibited)
+
+//@ func Element.addAffine3Iso2
+//@   mode ring
+//@   requires !same(e, v)
+//@   requires wf3(e) && wf3(v)
+//@   ensures wf [C08]: wf3(e)
+//@   ensures x [C08]: fv(e.x) == chord_x(old(fv(e.x)), old(fv(e.y)), fv(v.x), fv(v.y))
+//@   ensures y [C08]: fv(e.y) == chord_y(old(fv(e.x)), old(fv(e.y)), fv(v.x), fv(v.y))
+//@   ensures z [C08]: fv(e.z) == old(fv(e.z))
+//@   modifies *e
+//@   returns e
+
+//@ func HashToScalar
+//@   mode int
+//@   props C15, C16, C17
+//@   ensures_panics empty [C09]: slen(str(dst)) == 0
+//@   ensures v [C09]: wfs(result) && sv(result) == nofint(os2ip(strcells(xmd(str(input), str(dst), 48), 48)))
+//@   returns fresh
+
+//@ func EncodeToGroup
+//@   mode int
+//@   props C15, C16, C17
+//@   ensures_panics empty [C08]: slen(str(dst)) == 0
+//@   ensures pt [C08]: inv(result) && pt(result) == mapc(h2f(str(input), str(dst), 48, 0))
+//@   returns fresh
+
+//@ func HashToGroup
+//@   mode int
+//@   props C15, C16, C17
+//@   requires nocoll: sswu_x(h2f(str(input), str(dst), 96, 0)) != sswu_x(h2f(str(input), str(dst), 96, 1))
+//@   uses chord_on_curve(sswu_x(h2f(str(input), str(dst), 96, 0)), sswu_y(h2f(str(input), str(dst), 96, 0)), sswu_x(h2f(str(input), str(dst), 96, 1)), sswu_y(h2f(str(input), str(dst), 96, 1)))
+//@   uses iso_hom_chord(sswu_x(h2f(str(input), str(dst), 96, 0)), sswu_y(h2f(str(input), str(dst), 96, 0)), sswu_x(h2f(str(input), str(dst), 96, 1)), sswu_y(h2f(str(input), str(dst), 96, 1)))
+//@   ensures_panics empty [C08]: slen(str(dst)) == 0
+//@   ensures pt [C08]: inv(result) && pt(result) == gadd(mapc(h2f(str(input), str(dst), 96, 0)), mapc(h2f(str(input), str(dst), 96, 1)))
+//@   returns fresh
